@@ -856,7 +856,26 @@ tx_outs:\n{tx_outs}
         return tx_lookup
 
 
+def _outpoint_memo(name):
+    """What is remembered about the spent output (amount, ScriptPubKey) is only
+    good for the outpoint (prev_tx, prev_index) it was looked up or set for"""
+
+    def getter(self):
+        outpoint, memo = self.__dict__.get(name, (None, None))
+        if outpoint == (self.prev_tx, self.prev_index):
+            return memo
+        return None
+
+    def setter(self, memo):
+        self.__dict__[name] = ((self.prev_tx, self.prev_index), memo)
+
+    return property(getter, setter)
+
+
 class TxIn:
+    _value = _outpoint_memo("_value")
+    _script_pubkey = _outpoint_memo("_script_pubkey")
+
     def __init__(self, prev_tx, prev_index, script_sig=None, sequence=None):
         self.prev_tx = prev_tx
         self.prev_index = prev_index
